@@ -72,6 +72,66 @@ Theorem C05_fallback_structure : forall dcf rackf (g : ring N) keyspaces enabled
             (uniq (concat (seg_nodes dcf rackf g enabled connected pol rq cho)))).
 Proof. exact fallback_structure. Qed.
 
+(* ---- the whole Plan (pick() first, then fallback() without the picked target) ------------
+   for EVERY oracle: every index drawn from 0..len, every shuffle permutation *)
+Theorem C05_pick_accepted : forall dcf rackf (g : ring N) keyspaces enabled connected shf pol rq,
+  sorted_strict g ->
+  (forall k s, ks_lookup keyspaces k = Some s -> nts_keys_ok s) ->
+  forall cho, (forall site len, (0 < len)%nat -> (cho site len < len)%nat) ->
+  pick_matches dcf rackf g keyspaces enabled connected pol rq
+    (option_map fst (pick dcf rackf g keyspaces enabled connected shf pol rq cho)) = true.
+Proof.
+  exact (fun dcf rackf g ks en co shf pol rq Hs Hk cho =>
+           pick_matches_model dcf rackf g ks en co shf pol rq Hs Hk cho (fun _ l => l) (fun _ l => Permutation_refl l)).
+Qed.
+
+Theorem C05_plan_accepted : forall dcf rackf (g : ring N) keyspaces enabled connected shf pol rq,
+  sorted_strict g ->
+  (forall k s, ks_lookup keyspaces k = Some s -> nts_keys_ok s) ->
+  forall cho shuf, (forall site l, Permutation (shuf site l) l) ->
+  (forall site len, (0 < len)%nat -> (cho site len < len)%nat) ->
+  plan_matches dcf rackf g keyspaces enabled connected pol rq
+    (map fst (plan dcf rackf g keyspaces enabled connected shf pol rq cho shuf)) = true.
+Proof. exact plan_matches_model. Qed.
+
+(* C05_nodup, C05_filter, C05_locality, C05_complete, C05_order, C05_lwt of the design, as one
+   statement about the model's Plan *)
+Theorem C05_plan_properties : forall dcf rackf (g : ring N) keyspaces enabled connected shf pol rq,
+  sorted_strict g ->
+  (forall k s, ks_lookup keyspaces k = Some s -> nts_keys_ok s) ->
+  forall cho shuf, (forall site l, Permutation (shuf site l) l) ->
+  (forall site len, (0 < len)%nat -> (cho site len < len)%nat) ->
+  let p := map fst (plan dcf rackf g keyspaces enabled connected shf pol rq cho shuf) in
+  P_nodup p /\ P_filter enabled p /\ P_locality dcf pol rq p /\ P_complete dcf g enabled pol rq p /\
+  P_order dcf rackf g keyspaces enabled connected pol rq p /\
+  P_lwt dcf rackf g keyspaces enabled connected pol rq p.
+Proof. exact plan_properties. Qed.
+
+(* LWT: the replica part of the plan is the same sequence for all oracles *)
+Theorem C05_lwt : forall dcf rackf (g : ring N) keyspaces enabled connected shf pol rq,
+  sorted_strict g ->
+  (forall k s, ks_lookup keyspaces k = Some s -> nts_keys_ok s) ->
+  forall cho shuf, (forall site l, Permutation (shuf site l) l) ->
+  (forall site len, (0 < len)%nat -> (cho site len < len)%nat) ->
+  rq_lwt rq = true ->
+  filter (fun n => (group_of dcf rackf g keyspaces enabled connected pol rq n <? 3)%nat)
+         (map fst (plan dcf rackf g keyspaces enabled connected shf pol rq cho shuf)) =
+  lwt_sequence dcf rackf g keyspaces enabled connected pol rq.
+Proof. exact plan_lwt_deterministic. Qed.
+
+(* where the plan's nodes come from *)
+Theorem C05_plan_nodes : forall dcf rackf (g : ring N) keyspaces enabled connected shf pol rq,
+  sorted_strict g ->
+  (forall k s, ks_lookup keyspaces k = Some s -> nts_keys_ok s) ->
+  forall cho shuf, (forall site l, Permutation (shuf site l) l) ->
+  (forall site len, (0 < len)%nat -> (cho site len < len)%nat) ->
+  map fst (plan dcf rackf g keyspaces enabled connected shf pol rq cho shuf) =
+  match pick dcf rackf g keyspaces enabled connected shf pol rq cho with
+  | Some (p, _) => p :: remove_by N.eqb p (map fst (fallback dcf rackf g keyspaces enabled connected shf pol rq cho shuf))
+  | None => map fst (fallback dcf rackf g keyspaces enabled connected shf pol rq cho shuf)
+  end.
+Proof. exact plan_nodes. Qed.
+
 (* ---- non-vacuity: the 7-node, 2-datacenter ring of the repository's own tests -----------
    nodes A..G = 1..7; eu = 1, us = 2; racks r1 = 1, r2 = 2; keyspace 0 = NTS {eu:3, us:3} *)
 Definition ex_dcf (n : N) : option N :=
@@ -110,6 +170,8 @@ Example C05_ex_accept :
 Proof. repeat split; vm_compute; reflexivity. Qed.
 
 Example C05_ex_model :
+  map fst (plan ex_dcf ex_rackf ex_g ex_ks ex_enabled ex_connected (fun _ => 0%N) ex_pol (ex_rq false)
+             (fun _ _ => 1%nat) (fun _ l => rev l)) = [7; 1; 4; 5; 2; 3]%N /\
   map fst (fallback ex_dcf ex_rackf ex_g ex_ks ex_enabled ex_connected (fun _ => 0%N) ex_pol (ex_rq true)
              (fun _ _ => 1%nat) (fun _ l => rev l)) = [1; 7; 4; 5; 2; 3]%N /\
   pick_matches ex_dcf ex_rackf ex_g ex_ks ex_enabled ex_connected ex_pol (ex_rq true) (Some 1%N) = true /\
@@ -122,3 +184,8 @@ Print Assumptions C05_fallback_accepted.
 Print Assumptions C05_fallback_properties.
 Print Assumptions C05_nodup_targets.
 Print Assumptions C05_fallback_structure.
+Print Assumptions C05_pick_accepted.
+Print Assumptions C05_plan_accepted.
+Print Assumptions C05_plan_properties.
+Print Assumptions C05_lwt.
+Print Assumptions C05_plan_nodes.
